@@ -11,7 +11,8 @@ CONSTANTS
   MaxKill = 1
   MaxDetach = 0
   MaxEnv = 0
-  MaxFail = 1
+  NPS = 7
+  MaxFail = 0
 INVARIANTS AckedExclusive AckedOnDisk OneWriter GcAlone
 VIEW MCView
 CHECK_DEADLOCK FALSE
